@@ -1151,3 +1151,145 @@ mutant("c15-no-retry-after-failed-attempt", "C15", "C15-D2", "client_manager_con
        "		m.reconnectErrorHandlers.forEach(func(handler *ManagerReconnectErrorFunc) { (*handler)(err) }, true)\n		m.reconnect(true)\n", "		m.reconnectErrorHandlers.forEach(func(handler *ManagerReconnectErrorFunc) { (*handler)(err) }, true)\n")
 mutant("c15-flush-skipped-when-receive-empty", "C15", "C15-D3", "client_socket.go",
        "	s.receiveBuffer = nil\n\n	s.sendBufferMu.Lock()", "	if len(s.receiveBuffer) == 0 {\n		return\n	}\n	s.receiveBuffer = nil\n\n	s.sendBufferMu.Lock()")
+
+# ---------------------------------------------------------------- C16
+mutant("c16-acks-read-unlocked", "C16", "C16-D1", "server_socket.go",
+       """	s.acksMu.Lock()
+	ack, ok := s.acks[*header.ID]
+	if ok {
+		delete(s.acks, *header.ID)
+	}
+	s.acksMu.Unlock()
+""",
+       """	ack, ok := s.acks[*header.ID]
+	s.acksMu.Lock()
+	if ok {
+		delete(s.acks, *header.ID)
+	}
+	s.acksMu.Unlock()
+""")
+mutant("c16-return-between-lock-unlock", "C16", "C16-D2", "packet_queue.go",
+       """	pq.mu.Lock()
+	alreadyDrained := len(pq.packets) == 0
+	pq.mu.Unlock()
+	if alreadyDrained {
+		return
+	}""",
+       """	pq.mu.Lock()
+	if len(pq.packets) == 0 {
+		return
+	}
+	pq.mu.Unlock()""")
+mutant("c16-fanout-inside-store-lock", "C16", "C16-D3", "store.go",
+       """func (e *handlerStore[T]) forEach(f func(handler T), concurrent bool) {
+	handlers := e.getAll()
+	if len(handlers) == 0 {
+		return
+	}
+	if concurrent {""",
+       """func (e *handlerStore[T]) forEach(f func(handler T), concurrent bool) {
+	handlers := e.getAll()
+	if len(handlers) == 0 {
+		return
+	}
+	if !concurrent {
+		e.mu.Lock()
+		defer e.mu.Unlock()
+	}
+	if concurrent {""")
+mutant("c16-lock-order-inversion", "C16", "C16-D4", "client_manager_conn.go",
+       """func (m *Manager) connected() bool {
+	m.stateMu.RLock()
+	defer m.stateMu.RUnlock()
+	return m.state == clientConnStateConnected
+}""",
+       """func (m *Manager) connected() bool {
+	m.stateMu.RLock()
+	defer m.stateMu.RUnlock()
+	return m.state == clientConnStateConnected
+}
+
+func (m *Manager) anySocketConnected() bool {
+	m.stateMu.RLock()
+	defer m.stateMu.RUnlock()
+	for _, s := range m.sockets.getAll() {
+		s.stateMu.RLock()
+		c := s.state == clientSocketConnStateConnected
+		s.stateMu.RUnlock()
+		if c {
+			return true
+		}
+	}
+	return false
+}""")
+mutant("c16-sendbuffer-under-wrong-mutex", "C16", "C16-D1", "client_socket.go",
+       """			s.sendBufferMu.Lock()
+			buffers := make([]sendBufferItem, len(packets))""",
+       """			s.receiveBufferMu.Lock()
+			defer s.receiveBufferMu.Unlock()
+			s.sendBufferMu.Lock()
+			s.sendBufferMu.Unlock()
+			s.sendBufferMu.Lock()
+			buffers := make([]sendBufferItem, len(packets))""".replace("			s.sendBufferMu.Lock()\n			s.sendBufferMu.Unlock()\n			s.sendBufferMu.Lock()\n", "") )
+mutant("c16-middleware-under-lock", "C16", "C16-D3", "middleware.go",
+       """	s.middlewareFuncsMu.RLock()
+	funcs := slices.Clone(s.middlewareFuncs)
+	s.middlewareFuncsMu.RUnlock()
+""",
+       """	s.middlewareFuncsMu.RLock()
+	defer s.middlewareFuncsMu.RUnlock()
+	funcs := slices.Clone(s.middlewareFuncs)
+""")
+mutant("c16-recursive-lock", "C16", "C16-D4", "store.go",
+       """func (s *nspStore) len() int {
+	s.mu.Lock()
+	defer s.mu.Unlock()
+	return len(s.nsps)
+}""",
+       """func (s *nspStore) len() int {
+	s.mu.Lock()
+	defer s.mu.Unlock()
+	if _, ok := s.get("/"); ok {
+		return len(s.nsps)
+	}
+	return len(s.nsps)
+}""")
+mutant("c16-state-write-under-rlock", "C16", "C16-D1", "client_manager.go",
+       """	m.stateMu.Lock()
+	m.state = clientConnStateDisconnected
+	m.stateMu.Unlock()
+
+	m.closeHandlers.forEach""",
+       """	m.stateMu.RLock()
+	m.state = clientConnStateDisconnected
+	m.stateMu.RUnlock()
+
+	m.closeHandlers.forEach""")
+mutant("c16-panic-under-lock", "C16", "C16-D2", "middleware.go",
+       """	s.middlewareFuncsMu.Lock()
+	defer s.middlewareFuncsMu.Unlock()
+	rv := reflect.ValueOf(f)
+	err := s.checkMiddlewareFunc(rv)
+	if err != nil {
+		panic(fmt.Errorf("sio: %w", err))
+	}
+	s.middlewareFuncs = append(s.middlewareFuncs, rv)""",
+       """	s.middlewareFuncsMu.Lock()
+	rv := reflect.ValueOf(f)
+	err := s.checkMiddlewareFunc(rv)
+	if err != nil {
+		panic(fmt.Errorf("sio: %w", err))
+	}
+	s.middlewareFuncs = append(s.middlewareFuncs, rv)
+	s.middlewareFuncsMu.Unlock()""")
+mutant("c16-adapter-callback-under-lock", "C16", "C16-D3", "adapter/adapter_memory.go",
+       """				if ok {
+					a.mu.Unlock()
+					callback(socket)
+					a.mu.Lock()
+					ids.Add(sid)
+				}""",
+       """				if ok {
+					callback(socket)
+					ids.Add(sid)
+				}""")
